@@ -47,6 +47,7 @@ type PStep struct {
 	Host   string `json:"host,omitempty"`   // request: literal Host header
 	Kind   string `json:"kind,omitempty"`   // request: small | large | websocket
 	Stale  bool   `json:"stale,omitempty"`  // delete: use the id of the previous (already deleted) mapping of the name
+	Anon   bool   `json:"anon,omitempty"`   // delete: the caller has no identity (client id 0: unauthenticated connection / internal caller)
 }
 
 type PCase struct {
@@ -290,6 +291,9 @@ func runProxyCase(c PCase) pResult {
 			}
 			if id == "" {
 				continue
+			}
+			if st.Anon {
+				client = 0
 			}
 			err := w.repo.DeleteMapping(ctx, id, client)
 			switch {
@@ -540,7 +544,7 @@ func genPStep(t *rapid.T, l string) PStep {
 	case 0, 1:
 		return PStep{Do: "create", Name: rapid.SampledFrom(nameDraw).Draw(t, l+"n"), Client: rapid.IntRange(0, 2).Draw(t, l+"c")}
 	case 2:
-		return PStep{Do: "delete", Name: rapid.SampledFrom(nameDraw).Draw(t, l+"n"), Client: rapid.IntRange(0, 2).Draw(t, l+"c"), Stale: rapid.IntRange(0, 3).Draw(t, l+"stale") == 0}
+		return PStep{Do: "delete", Name: rapid.SampledFrom(nameDraw).Draw(t, l+"n"), Client: rapid.IntRange(0, 2).Draw(t, l+"c"), Stale: rapid.IntRange(0, 3).Draw(t, l+"stale") == 0, Anon: rapid.IntRange(0, 4).Draw(t, l+"anon") == 0}
 	case 3:
 		return PStep{Do: "update", Name: rapid.SampledFrom(nameDraw).Draw(t, l+"n"), Set: rapid.SampledFrom([]string{"inactive", "active", "expired", "future", "retarget"}).Draw(t, l+"set")}
 	case 4:
